@@ -35,6 +35,9 @@ var verifC13Src = []string{
 	// the same from a one-row outer table: the outer query is not split, so the inner scan is
 	"select id, (select count(*) from t as z where z.k = o.k) from o",
 	"select id, (select count(*) from t as z where z.k = o.k + o.id + o.k + o.id + o.k + o.id + o.k + o.id + o.k + o.id - o.k) from o",
+	// process-wide random generators used from the workers
+	"select id, rand(), rand(1, 6) from t",
+	"select id, (select count(*) from json_table('{id,k}', '[{\"id\":1,\"k\":1}]') jt where jt.k = t.k) from t",
 }
 var verifC13Queries []parser.SelectQuery
 var verifC13Decls []parser.Statement
